@@ -61,6 +61,18 @@ def run(ctx):
         c = families.mkcase(f"MIP-{i}", {"x": x, "y": y}, impl, None, {"func": "inplace-metadata", "dtype": d, "dclass": family.dclass(d)}, rnd)
         c["lazy_subsets"] = [{"names": ["x", "y"]}, {"names": ["x", "y"], "sigs": {"x": [None] * r, "y": [None] * (r + 1)}}, {"names": ["x"]}]
         cases.append(c)
+    # the shape-as-array result is an ordinary array: writing into it must not change what x reports afterwards
+    for i in range(24 * scale):
+        d = rnd.choice(["int64", "float32", "nint32"])
+        r = rnd.randint(1, 3)
+        sh = [rnd.choice([2, 3, 4]) for _ in range(r)]
+        x = ops.tensor(rnd, d, sh, "small")
+        impl = rnd.choice(["s_ = nda.shape(x); s_[0] = 1; out = [nda.shape(x), ndx.zeros_like(x), x + 0]",
+                           "s_ = nda.shape(x); s_[-1] = 7; out = [nda.shape(x), ndx.roll(x, 1, axis=0)]",
+                           "e = x.copy(); s_ = nda.shape(e); s_[0] = 1; t_ = nda.shape(e); out = [t_, e, ndx.ones_like(e)]"])
+        c = families.mkcase(f"MSW-{i}", {"x": x}, impl, None, {"func": "shape-array-write", "dtype": d, "dclass": family.dclass(d)}, rnd)
+        c["lazy_subsets"] = [{"names": ["x"]}, {"names": ["x"], "sigs": {"x": [None] * r}}, {"names": []}]
+        cases.append(c)
     # slices with bounds far outside the axis and any step sign: whatever such an index selects, the static
     # shape / declared dims must be what the model produces (values are not judged here)
     for i in range(80 * scale):
